@@ -4,6 +4,7 @@ import TT.Driver.C04
 import TT.Driver.C05
 import TT.Driver.C06
 import TT.Driver.C08
+import TT.Driver.C10
 import TT.Driver.C11
 import TT.Driver.C12
 import TT.Driver.C13
@@ -22,6 +23,7 @@ def answer (line : String) : String :=
   | "c05" :: rest => c05 rest
   | "c06" :: rest => c06 rest
   | "c08" :: rest => c08 rest
+  | "c10" :: rest => c10 rest
   | "c11" :: rest => c11 rest
   | "c12" :: rest => c12 rest
   | "c13" :: rest => c13 rest
